@@ -183,7 +183,7 @@ class AccountThread(object):
         if self.state == "dead":
             return
         self.go.release()
-        if not self.idle.acquire(timeout=60):
+        if not self.idle.acquire(timeout=600):
             raise RuntimeError("account thread %s did not park (state %s)" % (self.account.phone, self.state))
 
     def _main(self):
@@ -220,7 +220,7 @@ class AccountThread(object):
         if self.state != "dead":
             self.stop = True
             self.go.release()
-            self.idle.acquire(timeout=10)
+            self.idle.acquire(timeout=60)
             self.thread.join(5)
 
 
